@@ -46,6 +46,7 @@ def config_snapshot():
 # --------------------------------------------------------------------------- catalogue
 
 P0B = (F(3, 8), F(-5, 8), F(7, 8))     # all coordinates odd multiples of 1/8
+CROSS = {}                             # label -> (p0, d, e, w): frame data of the line-like catalogue objects
 
 
 def catalogue():
@@ -67,6 +68,8 @@ def catalogue():
                 mom = X.cross(dd, p0)
                 t2 = '%s/d%d' % (tag, di)
                 q = X.add(p0, d)
+                others = [x for j, x in enumerate((u, v, w)) if j != di]
+                CROSS[t2] = (p0, d, others[0], others[1])
                 cat.append((t2, 'Line', list(p0) + [F(c) for c in d], lambda c: Line(Point(*c[:3]), Vector(*c[3:])), list(dd) + list(mom) + [-c for c in dd] + [-c for c in mom]))
                 cat.append((t2, 'HalfLine', list(p0) + [F(c) for c in d], lambda c: HalfLine(Point(*c[:3]), Vector(*c[3:])), list(p0) + list(dd)))
                 cat.append((t2, 'Segment', list(p0) + list(q), lambda c: Segment(Point(*c[:3]), Point(*c[3:])), list(p0) + list(q)))
@@ -190,6 +193,24 @@ def battery(full):
                         else:
                             chk('intersection-equals-operand', lambda: r == a)
                 res.append(ok)
+        if kind in ('Line', 'Segment', 'HalfLine') and fname in CROSS and (full or fname.endswith('d0')):
+            # a second line-like object crossing this one at an interior point, pushed out of the common plane by
+            # eps/1000: within the current tolerance they still meet, the intersection must be that Point
+            p0, d, e, w = CROSS[fname]
+            Xp = [float(p0[i]) + 0.5 * float(d[i]) for i in range(3)]
+            for sgn in (1, -1):
+                off = [sgn * eps / 1000 * float(w[i]) / math.sqrt(float(X.n2(w))) for i in range(3)]
+                s0 = [Xp[i] - float(e[i]) + off[i] for i in range(3)]
+                s1 = [Xp[i] + float(e[i]) + off[i] for i in range(3)]
+                lab = '%s/%s/crossing/eps/%d' % (fname, kind, sgn * 1000)
+                for ckind, mkc in (('Segment', lambda: Segment(Point(*s0), Point(*s1))), ('Line', lambda: Line(Point(*s0), Point(*s1)))):
+                    c_ = lib.call(mkc)
+                    for order, th in (('ab', lambda: intersection(a, c_)), ('ba', lambda: intersection(c_, a))):
+                        r = lib.call(th)
+                        ok = isinstance(r, Point) and all(abs(float(r[i]) - Xp[i]) <= 10 * eps + 1e-12 for i in range(3))
+                        res.append(ok)
+                        if not ok:
+                            fails.append((lab, kind, 'crossing-within-tolerance-not-a-point:%s-x-%s:%s' % (kind, ckind, lib.tname(r))))
         if kind in ('Point', 'Vector'):
             for idx in (0, 1, 2, 3, 4, 5):
                 sgn = 1 if idx < 3 else -1
